@@ -9385,7 +9385,7 @@ wp_mod_main:
 		if (fmt[i] == HAWK_BT('d') || fmt[i] == HAWK_BT('i') ||
 		    fmt[i] == HAWK_BT('x') || fmt[i] == HAWK_BT('X') ||
 		    fmt[i] == HAWK_BT('b') || fmt[i] == HAWK_BT('B') ||
-		    fmt[i] == HAWK_BT('o'))
+		    fmt[i] == HAWK_BT('o') || fmt[i] == HAWK_BT('u'))
 		{
 			hawk_val_t* v;
 			hawk_int_t l;
@@ -9516,6 +9516,12 @@ wp_mod_main:
 						 * for 0 with FLAG_HASH and precision 0. */
 						fmt_flags |= HAWK_FMT_INTMAX_ZEROLEAD;
 					}
+					break;
+
+				case HAWK_BT('u'):
+					/* the + and space flags apply to signed conversions only */
+					fmt_flags |= 10;
+					fmt_uint = 1;
 					break;
 
 				default:
